@@ -2,6 +2,7 @@ import Lean.Data.Json
 import Driver.Common
 import Model.Elab
 import Proofs.WFCheck
+import Proofs.Containers
 /-! driver command `J {"op":"sched", …}`: run the scheduler model on one scenario projection -/
 namespace SPD
 open SP Lean
@@ -118,11 +119,22 @@ def runSched (j : Json) : Json :=
     match dt, (σ.tst td.1).start with
     | some d, some v => !((σ.tst td.2.target).scheduled && decide (d + td.2.gap ≤ v))
     | _, _ => !(σ.tst td.2.target).scheduled)
-  let thm := Json.mkObj [("elig", Json.num (JsonNumber.fromNat eligs.length)), ("elig_scheduled", Json.num (JsonNumber.fromNat eligSched.length)),
+  -- containers: scheduled => children scheduled and dates = min / max; all children scheduled => scheduled
+  let conts := (List.range e.tasks.size).filter (fun c => !(e.taskD c).leaf && !(e.taskD c).children.isEmpty)
+  let contFail := conts.filter (fun c =>
+    let cs := (e.taskD c).children
+    let allSched := cs.all (fun ch => (σ.tst ch).scheduled)
+    if (σ.tst c).scheduled then
+      !(allSched &&
+        (match childMinStart σ cs with | some s => (σ.tst c).start == some s | none => true) &&
+        (match childMaxEnd σ cs with | some s => (σ.tst c).stop == some s | none => true))
+    else allSched)
+  let thm := Json.mkObj [("containers", Json.num (JsonNumber.fromNat conts.length)), ("container_fail", Json.num (JsonNumber.fromNat contFail.length)),
+                         ("elig", Json.num (JsonNumber.fromNat eligs.length)), ("elig_scheduled", Json.num (JsonNumber.fromNat eligSched.length)),
                          ("effort_exact_fail", Json.num (JsonNumber.fromNat effortFail.length)),
                          ("fwd_scheduled", Json.num (JsonNumber.fromNat fwds.length)), ("dep_edges", Json.num (JsonNumber.fromNat depPairs.length)),
                          ("dep_fail", Json.num (JsonNumber.fromNat depFail.length))]
-  Json.mkObj [("end", Json.num (JsonNumber.fromInt (Elab.abs p e.stop))), ("wf", Json.bool (wfCheck e)), ("size", Json.num (JsonNumber.fromInt e.size)), ("thm", thm),
+  Json.mkObj [("end", Json.num (JsonNumber.fromInt (Elab.abs p e.stop))), ("wf", Json.bool (wfCheck e && treeCheck e)), ("size", Json.num (JsonNumber.fromInt e.size)), ("thm", thm),
               ("tasks", Json.arr tasks.toArray), ("ledger", Json.arr led.toArray), ("counters", Json.arr cnt.toArray),
               ("warnings", Json.arr (σ.warnings.map Json.str).toArray)]
 
